@@ -462,6 +462,12 @@ func DoWithDeadline(t bpmn.TaskTrace, d time.Duration, opts ...bpmn.DoOption) bo
 }
 
 // AnswerOK answers a pending request successfully with integer results.
+// SetVar: the host changes an instance variable through the process's locator (recorded as a driver action)
+func (in *Inst) SetVar(name string, v int) {
+	in.Op("setvar %s=%d", name, v)
+	in.Proc.Locator().SetVariable(name, v)
+}
+
 func (in *Inst) AnswerOK(q *Req, results map[string]int) bool {
 	res := map[string]any{}
 	keys := make([]string, 0, len(results))
